@@ -38,6 +38,29 @@ func histories(depth int) [][]string {
 type project struct {
 	Name  string
 	Cases []scen.Case
+	Patch func(p *scen.Project) // optional: changes to the rendered project (files, globs)
+}
+
+// partialGlobs narrows the controller globs of the first few packages to their ctl_*.go files and drops a further,
+// un-globbed controller file into each of those packages: only globbed files may ever contribute, in every
+// analysis of a session.
+func partialGlobs(p *scen.Project) {
+	globs, _ := p.Config["commonConfig"].(map[string]any)["controllerGlobs"].([]string)
+	var out []string
+	for i, g := range globs {
+		if i >= 6 || !strings.HasSuffix(g, "/*.go") {
+			out = append(out, g)
+			continue
+		}
+		pkg := strings.TrimSuffix(strings.TrimPrefix(g, "./"), "/*.go")
+		out = append(out, "./"+pkg+"/ctl_*.go")
+		name := "Adm" + strings.ReplaceAll(pkg, "/", "")
+		tmp := scen.NewProject()
+		scen.Render(tmp, []scen.Unit{{Controllers: []scen.Controller{{Name: name, Pkg: pkg, File: "unglobbed_admin.go", Prefix: scen.S("/" + pkg + "/admin"), Tag: scen.S("T" + name),
+			Methods: []scen.Method{{Name: "Purge" + name, Verb: "DELETE", Route: scen.S("/purge")}}}}}})
+		p.Files[pkg+"/unglobbed_admin.go"] = tmp.Files[pkg+"/unglobbed_admin.go"]
+	}
+	scen.Set(p.Config, "commonConfig.controllerGlobs", out)
 }
 
 func pick(cases []scen.Case, pred func(scen.Case) bool, n int) []scen.Case {
@@ -60,20 +83,28 @@ func projects(tier string) []project {
 		return func(c scen.Case) bool { return c.Features["family"] == name }
 	}
 	ps := []project{
-		{"signatures: every return shape (incl. map), map/struct bodies, 3-parameter orders", append(append(
-			pick(sig.Cases, func(c scen.Case) bool { return c.Features["family"] == "sig-return" && c.Features["response"] == "" && c.Features["errresps"] == "" }, 24),
-			pick(sig.Cases, func(c scen.Case) bool { return c.Features["family"] == "sig-1param" && c.Features["in"] == "Body" && c.Features["kind"] != "body-string" && c.Features["validate"] == "" && c.Features["ptr"] == "false" }, 8)...),
+		{Name: "signatures: every return shape (incl. map), map/struct bodies, 3-parameter orders", Cases: append(append(
+			pick(sig.Cases, func(c scen.Case) bool {
+				return c.Features["family"] == "sig-return" && c.Features["response"] == "" && c.Features["errresps"] == ""
+			}, 24),
+			pick(sig.Cases, func(c scen.Case) bool {
+				return c.Features["family"] == "sig-1param" && c.Features["in"] == "Body" && c.Features["kind"] != "body-string" && c.Features["validate"] == "" && c.Features["ptr"] == "false"
+			}, 8)...),
 			pick(sig.Cases, fa("sig-3param"), 10)...)},
-		{"types: graphs without mutual recursion, leaves, cross-package", append(append(pick(typ.Cases, func(c scen.Case) bool { return c.Features["family"] == "type-graph" && c.Features["mutual"] == "false" }, 24), pick(typ.Cases, fa("type-leaf"), 14)...), pick(typ.Cases, fa("type-cross-package"), 1)...)},
-		{"layout and security: prefixes, verbs, hidden, security shapes (with route-conflict warnings)", append(pick(lay, func(c scen.Case) bool { return c.Features["prefix"] == "/§/a" }, 20), pick(sec.Cases, func(scen.Case) bool { return true }, 12)...)},
+		{Name: "types: graphs without mutual recursion, leaves, cross-package", Cases: append(append(pick(typ.Cases, func(c scen.Case) bool { return c.Features["family"] == "type-graph" && c.Features["mutual"] == "false" }, 24), pick(typ.Cases, fa("type-leaf"), 14)...), pick(typ.Cases, fa("type-cross-package"), 1)...)},
+		{Name: "layout and security: prefixes, verbs, hidden, security shapes (with route-conflict warnings)", Cases: append(pick(lay, func(c scen.Case) bool { return c.Features["prefix"] == "/§/a" }, 20), pick(sec.Cases, func(scen.Case) bool { return true }, 12)...)},
 	}
+	ps = append(ps, project{Name: "partially globbed packages: every package also holds a controller file outside controllerGlobs",
+		Cases: append(pick(lay, func(c scen.Case) bool { return c.Features["prefix"] == "/§" && c.Features["hidden"] == "false" }, 8), pick(sig.Cases, fa("sig-return"), 6)...), Patch: partialGlobs})
 	if tier == "thorough" {
 		ps = append(ps,
-			project{"signatures: 1-parameter kinds", pick(sig.Cases, func(c scen.Case) bool { return c.Features["family"] == "sig-1param" && c.Features["validate"] == "" }, 40)},
-			project{"signatures: 2-parameter", pick(sig.Cases, fa("sig-2param"), 40)},
-			project{"validators", pick(val.Cases, func(c scen.Case) bool { return c.Features["site"] == "field" }, 40)},
-			project{"types: metamorphic and leaves", append(pick(typ.Cases, fa("type-meta"), 14), pick(typ.Cases, func(c scen.Case) bool { return c.Features["family"] == "type-leaf" && c.Features["tag"] == "required" }, 20)...)},
-			project{"single controller", pick(lay, func(c scen.Case) bool { return c.Features["prefix"] == "/§" && c.Features["route"] == "/x/{id}" && c.Features["verb"] == "GET" }, 1)},
+			project{Name: "signatures: 1-parameter kinds", Cases: pick(sig.Cases, func(c scen.Case) bool { return c.Features["family"] == "sig-1param" && c.Features["validate"] == "" }, 40)},
+			project{Name: "signatures: 2-parameter", Cases: pick(sig.Cases, fa("sig-2param"), 40)},
+			project{Name: "validators", Cases: pick(val.Cases, func(c scen.Case) bool { return c.Features["site"] == "field" }, 40)},
+			project{Name: "types: metamorphic and leaves", Cases: append(pick(typ.Cases, fa("type-meta"), 14), pick(typ.Cases, func(c scen.Case) bool { return c.Features["family"] == "type-leaf" && c.Features["tag"] == "required" }, 20)...)},
+			project{Name: "single controller", Cases: pick(lay, func(c scen.Case) bool {
+				return c.Features["prefix"] == "/§" && c.Features["route"] == "/x/{id}" && c.Features["verb"] == "GET"
+			}, 1)},
 		)
 	}
 	return ps
@@ -107,6 +138,9 @@ func Main(tier, replay string) {
 			continue
 		}
 		proj := rn.BuildProject(p.Cases)
+		if p.Patch != nil {
+			p.Patch(proj)
+		}
 		dir := filepath.Join(scratch, fmt.Sprintf("proj%d", pi))
 		if err := proj.Write(dir); err != nil {
 			core.Harness("cannot write project: %v", err)
